@@ -29,6 +29,10 @@
 #else
 #define GD_BZIP_BUFFER_SIZE 1000000
 #endif
+#if defined GETDATA_VERIF && defined GD_VERIF_BZIP_BUFFER_SIZE
+#undef GD_BZIP_BUFFER_SIZE
+#define GD_BZIP_BUFFER_SIZE GD_VERIF_BZIP_BUFFER_SIZE
+#endif
 
 struct gd_bzdata {
   BZFILE* bzfile;
